@@ -129,6 +129,12 @@ func (ds *dataStore) enterListMultiBlock(keyNames []string) (ws *wakeSignal) {
 	return ds.waitingClients.enterMultiWait(keyNames)
 }
 
+func (ds *dataStore) reenterListBlock(ws *wakeSignal, keyNames []string) {
+	ds.mu.Lock()
+	defer ds.mu.Unlock()
+	ds.waitingClients.reenterWait(ws, keyNames)
+}
+
 func (ds *dataStore) leaveListBlock(ws *wakeSignal) {
 	ds.mu.Lock()
 	defer ds.mu.Unlock()
